@@ -510,6 +510,11 @@ func (e *Env) evalBinary(c *CBinary) TVal {
 
 func (e *Env) evalCall(c *CCall) TVal {
 	ctx := e.x.ctx
+	if c.Fn == "owned" {
+		// ownership of a result graph: registered at call sites (collectFresh); as a formula
+		// it only says the pointer is a new allocation
+		return e.evalCall(&CCall{Fn: "fresh", Args: c.Args})
+	}
 	argT := func(i int) Term {
 		if i >= len(c.Args) {
 			e.errorf("%s: missing argument %d", c.Fn, i)
